@@ -532,6 +532,87 @@ func c01closing(per, bound int, strict bool) *explore.Scenario {
 	return sc
 }
 
+// c01rebind: a socket is closed from two threads at once while a third thread binds the same address again.
+// If the new bind succeeded, the new socket is the open socket bound to that address: a datagram sent there
+// afterwards reaches it, and nobody else can bind the address.
+func c01rebind(bound int) *explore.Scenario {
+	name := "a socket is closed twice concurrently while its address is bound again"
+	sc := &explore.Scenario{Name: name, Bound: bound}
+	sc.Cfg.Horizon = 5 * time.Second
+	sc.Cfg.YieldOnRelease = true
+	sc.Make = func() (func(), func(*zzvsched.Exec) (string, *explore.Violation)) {
+		var viol *explore.Violation
+		var got []string
+		rebound, finished := false, false
+		body := func() {
+			w := newWorld()
+			w.router("root", "1.2.3.0/24", "", nil, nil)
+			w.host("W1", "root", "1.2.3.10")
+			w.host("W2", "root", "1.2.3.20")
+			victim := w.sock("W1", "", 7001, "")
+			sender := w.sock("W2", "", 7000, "")
+			if err := w.routers["root"].Start(); err != nil {
+				panic(err)
+			}
+			zzvsched.WaitQuiet(time.Millisecond)
+			addr := &net.UDPAddr{IP: net.ParseIP("1.2.3.10"), Port: 7001}
+			var fresh net.PacketConn
+			for i := 0; i < 2; i++ {
+				zzvsched.GoNamed(fmt.Sprintf("closer%d", i), func() { _ = victim.conn.Close() })
+			}
+			zzvsched.GoNamed("binder", func() {
+				if c, err := w.nets["W1"].ListenUDP("udp", addr); err == nil {
+					fresh = c
+					rebound = true
+				}
+			})
+			zzvsched.WaitQuiet(time.Millisecond)
+			if fresh != nil {
+				zzvsched.GoNamed("reader-fresh", func() {
+					for {
+						buf := make([]byte, 64)
+						n, _, err := fresh.ReadFrom(buf)
+						if err != nil {
+							return
+						}
+						got = append(got, string(buf[:n]))
+					}
+				})
+				if c2, err := w.nets["W1"].ListenUDP("udp", addr); err == nil {
+					viol = &explore.Violation{Sig: "C01 address-bound-twice", Msg: name + ": 1.2.3.10:7001 was bound again while the socket that re-bound it is open"}
+					_ = c2.Close()
+				}
+				if _, err := sender.conn.WriteTo([]byte("hello"), addr); err != nil {
+					viol = &explore.Violation{Sig: "C01 write-failed", Msg: name + ": " + err.Error()}
+				}
+				zzvsched.WaitQuiet(time.Millisecond)
+			}
+			finished = true
+		}
+		check := func(ex *zzvsched.Exec) (string, *explore.Violation) {
+			out := fmt.Sprintf("rebound=%v got=%v", rebound, got)
+			if len(ex.Panics) > 0 {
+				return out, &explore.Violation{Sig: "C01 panic", Msg: name + ": panic: " + ex.Panics[0].Value + "\n" + ex.Panics[0].Stack}
+			}
+			if viol != nil {
+				return out, viol
+			}
+			if ex.HorizonHit {
+				return out + " HORIZON", nil
+			}
+			if !finished {
+				return out, &explore.Violation{Sig: "C01 blocked", Msg: fmt.Sprintf("%s: blocked threads: %v", name, ex.Parked)}
+			}
+			if rebound && (len(got) != 1 || got[0] != "hello") {
+				return out, &explore.Violation{Sig: "C01 lost", Msg: fmt.Sprintf("%s: the address was bound again by an open socket, but the datagram sent to it afterwards arrived as %v (router started, unlimited queues, no filter)", name, got)}
+			}
+			return out, nil
+		}
+		return body, check
+	}
+	return sc
+}
+
 func c01concurrent(nat natSpec, nSenders, per, bound int, strict bool, queue int) *explore.Scenario {
 	name := fmt.Sprintf("concurrent nat=%s senders=%d x%d", nat, nSenders, per)
 	if queue > 0 {
@@ -712,7 +793,7 @@ func init() {
 				// bounded router queues: no loss while the number of datagrams stays below the bound,
 				// and with a bound of 1 whatever arrives is still intact, in order, once
 				out = append(out, c01concurrent(nats[0], 2, 2, 2, true, 5), c01concurrent(nats[0], 2, 2, 2, true, 1))
-				out = append(out, c01closing(2, 2, true), c01closing(1, 1, false))
+				out = append(out, c01closing(2, 2, true), c01closing(1, 1, false), c01rebind(2))
 				return out
 			}
 			out = append(out, c01plan(c01topos[0], nats[0], 3, 0, 0))
@@ -729,9 +810,9 @@ func init() {
 			for _, n := range []natSpec{nats[0], nats[9]} {
 				out = append(out, c01concurrent(n, 2, 1, 1, false, 0))
 			}
-			out = append(out, c01closing(2, 3, true), c01closing(2, 1, false), c01closing(1, 2, false))
+			out = append(out, c01closing(2, 3, true), c01closing(2, 1, false), c01closing(1, 2, false), c01rebind(3))
 			return out
 		},
-		Rule:        "topologies {root only; root+LAN; root+2 sibling LANs; root+LAN+nested LAN} with static / automatic / two-address hosts and sockets bound to a specific address, the wildcard, port 0 or dialled, x NAT {9 mapping/filtering combinations, 1:1} x every traffic plan of 2-3 sends over (sending socket) x (every socket address on every network, unbound port, unroutable IPs, loopback, the LAN's own external address, 'the source last observed by socket k'), payload sizes {1500,0,1}, sender buffer overwritten after WriteTo; after each send the system runs to quiescence and every socket's new receptions are compared with the routing/NAT model. Plus 2-3 concurrent senders x 2 datagrams through one NAT to one socket under every schedule within the deviation bound, followed by a reply to every observed source. Plus: one socket of the receiving host is closed while datagrams for it and for a second open socket of that host are in flight (the open socket must receive everything; Close returns; no thread stays blocked on a lock).",
+		Rule:        "topologies {root only; root+LAN; root+2 sibling LANs; root+LAN+nested LAN} with static / automatic / two-address hosts and sockets bound to a specific address, the wildcard, port 0 or dialled, x NAT {9 mapping/filtering combinations, 1:1} x every traffic plan of 2-3 sends over (sending socket) x (every socket address on every network, unbound port, unroutable IPs, loopback, the LAN's own external address, 'the source last observed by socket k'), payload sizes {1500,0,1}, sender buffer overwritten after WriteTo; after each send the system runs to quiescence and every socket's new receptions are compared with the routing/NAT model. Plus 2-3 concurrent senders x 2 datagrams through one NAT to one socket under every schedule within the deviation bound, followed by a reply to every observed source. Plus: one socket of the receiving host is closed while datagrams for it and for a second open socket of that host are in flight (the open socket must receive everything; Close returns; no thread stays blocked on a lock); a socket closed from two threads at once while a third binds its address again (the new socket then receives what is sent there and the address cannot be bound a second time).",
 		Assumptions: []string{"external ports are 'some fresh port': bound to the value first observed, then required to be stable and unique", "no time passes (mapping lifetime 30 s); queues unbounded unless stated"}})
 }
